@@ -13,7 +13,12 @@ use vcore::src::{fnv, Src};
 
 pub fn ifaces() -> &'static Vec<IfaceEntry> {
     static T: OnceLock<Vec<IfaceEntry>> = OnceLock::new();
-    T.get_or_init(crate::generated::ifaces)
+    T.get_or_init(|| {
+        let mut v = crate::generated::ifaces();
+        // ... and one interface implemented by hand
+        v.push(crate::manual::entry());
+        v
+    })
 }
 
 pub const PATHS: [&str; 5] = ["/gen", "/gen/a", "/gen/a/b", "/other", "/"];
